@@ -82,8 +82,11 @@ def head_loops(args):
 
 MAX_FOR = 19    # CPython refuses the 21st open block; one is left as a margin
 
-def fits(args, body):
-    return 1 + head_loops(args) + count_loops(body) <= MAX_FOR
+MAX_FOR_EXACT = 20    # the limit itself: count_loops never underestimates (validated against the emitted text), so a body that it
+                      # puts at 20 loads; should it ever be over, the compiler says "too large for Python" (D13) and the case is skipped
+
+def fits(args, body, max_for=None):
+    return 1 + head_loops(args) + count_loops(body) <= (max_for or MAX_FOR)
 
 # ------------------------------------------------------------------ 1. long bodies
 
@@ -181,7 +184,8 @@ def _flat_terms(b):
     elif k == 'not':
         yield from _flat_terms(b[1])
 
-def gen_long_body_program(rng):
+def gen_long_body_program(rng, max_for=None):
+    fits_ = lambda a, b: fits(a, b, max_for)
     ar = rng.choice([2, 2, 3, 3, 4])
     hv = ['X', 'Y', 'Z', 'W'][:ar]
     nfacts = rng.choice([2, 2, 3])
@@ -199,12 +203,20 @@ def gen_long_body_program(rng):
             # stay inside what CPython loads: turn deterministic calls into `true` (no loop, still a goal) while needed
             idx = [j for j, g in enumerate(goals) if g in (call('s0'), call('s1', A('a')), eq(V('_'), A('k')))]
             rng.shuffle(idx)
-            while not fits(head, _conj(goals)) and idx:
+            while not fits_(head, _conj(goals)) and idx:
                 goals[idx.pop()] = ['true']
-            if not fits(head, _conj(goals)):
+            if not fits_(head, _conj(goals)):
                 goals = goals[:8]
-                if not fits(head, _conj(goals)):
+                if not fits_(head, _conj(goals)):
                     goals = [call('n', V(hv[0])), ['cut']]
+            if max_for and rng.random() < 0.5:
+                goals.append(_control_item(rng, [], []))       # a control construct as the very last goal
+                while not fits_(head, _conj(goals)) and len(goals) > 2:
+                    del goals[rng.randrange(0, len(goals) - 1)]
+            if max_for and rng.random() < 0.8:
+                # boundary size: fill the clause up to exactly max_for nested blocks with deterministic calls in front of its last goals
+                while len(goals) < 40 and fits_(head, _conj(goals[:1] + [call('s0')] + goals[1:])):
+                    goals.insert(rng.randrange(0, max(1, len(goals) - 3)), call('s0'))
             clauses.append(['p', head, _conj(goals)])
         else:
             q = rng.random()
